@@ -91,3 +91,225 @@ def gen(repo):
 
 
 TARGETS = {"GenC02.v": gen}
+
+
+# ---------------------------------------------------------------------------------------------------
+# LasHeader.read_from: how the record layout is resolved from 'Point Data Record Length', the point format and the
+# Extra Bytes VLR (which descriptors are used, how many undocumented bytes trail every record, or the error).
+# The block between `point_format = PointFormat(point_format_id)` and `if read_evlrs:` is executed symbolically, path by
+# path, over (point_size, std = PointFormat(id).size, described = bytes the VLR's descriptors describe, has_vlr):
+#   Definition resolve_record (point_size std described : Z) (has_vlr : bool) : result (bool * Z)
+# = Ok (descriptors used, trailing undocumented bytes) | Err ELaspy.   Anything outside the small statement language
+# below is Untranslatable (fail closed).
+# ---------------------------------------------------------------------------------------------------
+import ast  # noqa: E402
+
+
+class _St:
+    def __init__(self):
+        self.terms = ["std"]      # point_format.size as a sum
+        self.used = False         # descriptors of the VLR added to the point format
+        self.trail = None         # Gallina text: number of undocumented bytes appended as one dimension
+        self.env = {}             # local int variables -> Gallina text
+        self.hv = None            # has_vlr known on this path
+        self.assigned = False     # header._point_format = point_format seen
+        self.vlr_var = None
+
+    def copy(self):
+        c = _St()
+        c.terms, c.used, c.trail, c.env, c.hv, c.assigned, c.vlr_var = list(self.terms), self.used, self.trail, dict(self.env), self.hv, self.assigned, self.vlr_var
+        return c
+
+    def size(self):
+        return self.terms[0] if len(self.terms) == 1 else "(" + " + ".join(self.terms) + ")"
+
+
+class _Resolve:
+    CMP = {ast.Eq: "({a} =? {b})", ast.NotEq: "negb ({a} =? {b})", ast.Lt: "({a} <? {b})", ast.LtE: "({a} <=? {b})",
+           ast.Gt: "({b} <? {a})", ast.GtE: "({b} <=? {a})"}
+
+    def __init__(self):
+        self.trailing_dims = set()
+
+    def zexpr(self, e, st):
+        if isinstance(e, ast.Constant) and isinstance(e.value, int) and not isinstance(e.value, bool):
+            return py2v.z(e.value)
+        if isinstance(e, ast.Name):
+            if e.id == "point_size":
+                return "point_size"
+            if e.id in st.env:
+                return st.env[e.id]
+            raise Untranslatable(f"unknown integer variable {e.id}")
+        if isinstance(e, ast.Attribute) and ast.unparse(e) == "point_format.size":
+            return st.size()
+        if isinstance(e, ast.BinOp) and isinstance(e.op, (ast.Add, ast.Sub, ast.Mult)):
+            op = {ast.Add: "+", ast.Sub: "-", ast.Mult: "*"}[type(e.op)]
+            return f"({self.zexpr(e.left, st)} {op} {self.zexpr(e.right, st)})"
+        raise Untranslatable(f"integer expression {ast.unparse(e)[:60]}")
+
+    def test(self, e, st):
+        if isinstance(e, ast.Compare) and len(e.ops) == 1 and type(e.ops[0]) in self.CMP:
+            return self.CMP[type(e.ops[0])].format(a=self.zexpr(e.left, st), b=self.zexpr(e.comparators[0], st))
+        if isinstance(e, ast.BoolOp):
+            parts = [self.test(v, st) for v in e.values]
+            return "(" + (" && " if isinstance(e.op, ast.And) else " || ").join(parts) + ")"
+        if isinstance(e, ast.UnaryOp) and isinstance(e.op, ast.Not):
+            return f"negb {self.test(e.operand, st)}"
+        raise Untranslatable(f"condition {ast.unparse(e)[:60]}")
+
+    @staticmethod
+    def strip_cast(v):
+        if isinstance(v, ast.Call) and ast.unparse(v.func) in ("typing.cast", "cast") and len(v.args) == 2:
+            return v.args[1]
+        return v
+
+    def trailing_dim(self, call, st):
+        """dims.DimensionInfo(name=..., kind=UnsignedInteger, num_bits=8 * E, num_elements=E, is_standard=False) -> text of E"""
+        if call.args:
+            raise Untranslatable("DimensionInfo with positional arguments")
+        kw = {k.arg: k.value for k in call.keywords}
+        need = {"name", "kind", "num_bits", "num_elements", "is_standard"}
+        if not need <= set(kw) or not set(kw) <= need | {"description"}:
+            raise Untranslatable(f"DimensionInfo keywords {sorted(kw)}")
+        if not (isinstance(kw["name"], ast.Constant) and isinstance(kw["name"].value, str)):
+            raise Untranslatable("DimensionInfo name is not a literal")
+        kinds = {"dims.DimensionKind.UnsignedInteger": "u", "DimensionKind.UnsignedInteger": "u"}
+        kind = kinds.get(ast.unparse(kw["kind"]))
+        if kind is None:
+            raise Untranslatable(f"DimensionInfo kind {ast.unparse(kw['kind'])}")
+        if not (isinstance(kw["is_standard"], ast.Constant) and kw["is_standard"].value is False):
+            raise Untranslatable("undocumented bytes declared as a standard dimension")
+        ne = kw["num_elements"]
+        nb = kw["num_bits"]
+        ok = (isinstance(nb, ast.BinOp) and isinstance(nb.op, ast.Mult)
+              and ((isinstance(nb.left, ast.Constant) and isinstance(nb.left.value, int) and nb.left.value % 8 == 0 and ast.dump(nb.right) == ast.dump(ne))
+                   or (isinstance(nb.right, ast.Constant) and isinstance(nb.right.value, int) and nb.right.value % 8 == 0 and ast.dump(nb.left) == ast.dump(ne))))
+        if not ok:
+            raise Untranslatable(f"num_bits {ast.unparse(nb)} is not <8k> * num_elements")
+        k = nb.left.value if isinstance(nb.left, ast.Constant) else nb.right.value
+        if k <= 0:
+            raise Untranslatable("element width")
+        self.trailing_dims.add((kw["name"].value, kind, k // 8))
+        return self.zexpr(ne, st), k // 8
+
+    def run(self, stmts, st):
+        """Gallina text of executing stmts (a flat list: the rest of the block is appended to each branch)"""
+        if not stmts:
+            if not st.assigned:
+                raise Untranslatable("header._point_format is not assigned on some path")
+            return f"Ok ({'true' if st.used else 'false'}, {st.trail if st.trail is not None else '0'})"
+        s, rest = stmts[0], stmts[1:]
+        if isinstance(s, ast.Pass):
+            return self.run(rest, st)
+        if isinstance(s, ast.Raise):
+            if s.exc is not None and isinstance(s.exc, ast.Call) and ast.unparse(s.exc.func) in ("LaspyException", "errors.LaspyException"):
+                return "Err ELaspy"
+            raise Untranslatable(f"raise {ast.unparse(s)[:60]}")
+        if isinstance(s, ast.If):
+            t = self.test(s.test, st)
+            a = self.run(list(s.body) + rest, st.copy())
+            b = self.run(list(s.orelse) + rest, st.copy())
+            return f"(if {t}\n   then {a}\n   else {b})"
+        if isinstance(s, ast.Try):
+            if s.finalbody or len(s.handlers) != 1 or len(s.body) != 1:
+                raise Untranslatable("try shape")
+            h = s.handlers[0]
+            if h.type is None or ast.unparse(h.type) != "IndexError" or h.name is not None:
+                raise Untranslatable("except clause is not `except IndexError`")
+            b = s.body[0]
+            if not (isinstance(b, ast.Assign) and len(b.targets) == 1 and isinstance(b.targets[0], ast.Name)):
+                raise Untranslatable("try body is not one assignment")
+            v = self.strip_cast(b.value)
+            if ast.unparse(v) not in ("header._vlrs.get('ExtraBytesVlr')[0]", "header.vlrs.get('ExtraBytesVlr')[0]"):
+                raise Untranslatable(f"try body {ast.unparse(v)[:80]}")
+            if st.hv is not None:
+                raise Untranslatable("the Extra Bytes VLR is looked up twice")
+            yes, no = st.copy(), st.copy()
+            yes.hv, yes.vlr_var = True, b.targets[0].id
+            no.hv = False
+            a = self.run(list(s.orelse) + rest, yes)
+            c = self.run(list(h.body) + rest, no)
+            return f"(if has_vlr\n   then {a}\n   else {c})"
+        if isinstance(s, ast.For):
+            if not (st.hv is True and not st.used and st.trail is None and not s.orelse and isinstance(s.target, ast.Name) and len(s.body) == 1
+                    and ast.unparse(s.iter) == f"{st.vlr_var}.type_of_extra_dims()"
+                    and ast.unparse(s.body[0]) == f"point_format.add_extra_dimension({s.target.id})"):
+                raise Untranslatable(f"for loop {ast.unparse(s)[:80]}")
+            st = st.copy()
+            st.used = True
+            st.terms.append("described")
+            return self.run(rest, st)
+        if isinstance(s, ast.Assign) and len(s.targets) == 1:
+            tgt = ast.unparse(s.targets[0])
+            if tgt == "header._point_format" and ast.unparse(s.value) == "point_format":
+                st = st.copy()
+                st.assigned = True
+                return self.run(rest, st)
+            if isinstance(s.targets[0], ast.Name) and tgt not in ("point_format", "point_size", "header"):
+                st = st.copy()
+                st.env[tgt] = self.zexpr(s.value, st)
+                return self.run(rest, st)
+            raise Untranslatable(f"assignment {ast.unparse(s)[:80]}")
+        if isinstance(s, ast.Expr) and isinstance(s.value, ast.Call):
+            f = ast.unparse(s.value.func)
+            if f.startswith("logger."):
+                return self.run(rest, st)
+            if f in ("header._vlrs.extract", "header.vlrs.extract") and st.hv is True and not st.used \
+                    and len(s.value.args) == 1 and isinstance(s.value.args[0], ast.Constant) and s.value.args[0].value == "ExtraBytesVlr":
+                return self.run(rest, st)     # the ignored VLR is dropped from the list (VLR identity is C08's)
+            if f == "point_format.dimensions.append" and len(s.value.args) == 1 and isinstance(s.value.args[0], ast.Call) \
+                    and ast.unparse(s.value.args[0].func) in ("dims.DimensionInfo", "DimensionInfo"):
+                if st.trail is not None:
+                    raise Untranslatable("two dimensions of undocumented bytes on one path")
+                st = st.copy()
+                e, w = self.trailing_dim(s.value.args[0], st)
+                st.trail = e
+                st.terms.append(e if w == 1 else f"({w} * {e})")
+                return self.run(rest, st)
+        if isinstance(s, ast.Expr) and isinstance(s.value, ast.Constant) and isinstance(s.value.value, str):
+            return self.run(rest, st)
+        raise Untranslatable(f"statement {ast.unparse(s)[:80]}")
+
+
+def gen_resolve(o, repo):
+    def thunk():
+        mod = py2v.parse(repo, "laspy/header.py")
+        fn = py2v.find_func(py2v.find_class(mod, "LasHeader"), "read_from")
+        body = list(fn.body)
+        start = [i for i, s in enumerate(body) if isinstance(s, ast.Assign) and ast.unparse(s.targets[0]) == "point_format"]
+        end = [i for i, s in enumerate(body) if isinstance(s, ast.If) and ast.unparse(s.test) == "read_evlrs"]
+        if len(start) != 1 or len(end) != 1 or not start[0] < end[0]:
+            raise Untranslatable("read_from: cannot delimit the block that builds the point format")
+        if ast.unparse(body[start[0]].value) != "PointFormat(point_format_id)":
+            raise Untranslatable(f"point_format = {ast.unparse(body[start[0]].value)[:60]}")
+        ps = [n for n in ast.walk(fn) if isinstance(n, ast.Assign) and any(ast.unparse(t) == "point_size" for t in n.targets)]
+        if len(ps) != 1 or "stream.read" not in ast.unparse(ps[0].value):
+            raise Untranslatable("point_size is not read exactly once from the stream")
+        for s in body[:start[0]] + body[end[0]:]:
+            for n in ast.walk(s):
+                if isinstance(n, ast.Name) and n.id == "point_format":
+                    raise Untranslatable("point_format is used outside the translated block")
+        for s in body[end[0]:]:
+            if "_point_format" in ast.unparse(s):
+                raise Untranslatable("header._point_format is touched after the translated block")
+        r = _Resolve()
+        text = r.run(body[start[0] + 1:end[0]], _St())
+        if len(r.trailing_dims) > 1:
+            raise Untranslatable(f"several shapes of the undocumented-bytes dimension: {sorted(r.trailing_dims)}")
+        name, kind, w = sorted(r.trailing_dims)[0] if r.trailing_dims else ("ExtraBytes", "u", 1)
+        return ("(* laspy/header.py LasHeader.read_from, the block that builds the point format of the file *)\n"
+                "Definition resolve_record (point_size std described : Z) (has_vlr : bool) : result (bool * Z) :=\n  " + text + ".\n\n"
+                f"Definition trailing_dim : string * string * Z := ({qs(name)}, {qs(kind)}, {int(w)}).\n")
+    o.add("resolve_record", thunk)
+
+
+_gen0 = gen
+
+
+def gen(repo):  # noqa: F811
+    o = _gen0(repo)
+    gen_resolve(o, repo)
+    return o
+
+
+TARGETS = {"GenC02.v": gen}
